@@ -252,6 +252,9 @@ Proof.
   destruct (r_code st') as [code|]; [reflexivity|]. apply IH.
 Qed.
 
+Lemma frev_rev l : frev l = rev l.
+Proof. unfold frev. symmetry. apply rev_alt. Qed.
+
 Lemma ends_with_lf_nonempty line : ends_with_lf line = true -> line <> [].
 Proof. intros H ->. discriminate. Qed.
 
@@ -325,13 +328,13 @@ Proof.
 Qed.
 
 Lemma ends_with_lf_crlf l : ends_with_lf (l ++ crlf) = true.
-Proof. unfold ends_with_lf, crlf. rewrite rev_app_distr. reflexivity. Qed.
+Proof. unfold ends_with_lf, crlf. rewrite frev_rev, rev_app_distr. reflexivity. Qed.
 
 Lemma splitlines_aux_line l : forall cur,
   no_crlf l -> splitlines_aux cur (l ++ crlf) = [rev cur ++ l].
 Proof.
   induction l as [|x l IH]; intros cur H; cbn [app splitlines_aux crlf].
-  - cbn. now rewrite app_nil_r.
+  - cbn. now rewrite frev_rev, app_nil_r.
   - inversion H as [|? ? [H13 H10] Hl]; subst.
     destruct (x =? 10) eqn:E1; [lia|]. destruct (x =? 13) eqn:E2; [lia|].
     rewrite IH by assumption. cbn [rev]. now rewrite <- app_assoc.
